@@ -106,9 +106,10 @@ func (s *scanner) ScanToken() (Object, error) {
 			return Operator(">>"), nil
 		default:
 			// s.err only matters if the input ends here; the reader may have
-			// reported its error (or EOF) together with the last data
+			// reported its error (or EOF) together with the last data.  A
+			// '>' which is the last byte of the input is a syntax error, too.
 			err := s.err
-			if err == nil || len(bb) == 2 {
+			if err == nil || err == io.EOF || len(bb) == 2 {
 				err = &postScriptError{eSyntaxerror, "unexpected '>'"}
 			}
 			return nil, err
